@@ -95,6 +95,8 @@ pub mod rt {
 
     #[inline(always)]
     pub fn before(kind: u8, addr: usize) {
+        #[cfg(not(kani))]
+        super::sched::point(kind, addr);
         unsafe {
             if IN_ENV {
                 return;
@@ -172,6 +174,68 @@ pub mod rt {
     pub fn assume(c: bool) {
         if !c {
             panic!("replay: assumption not met by the recorded values");
+        }
+    }
+}
+
+// ---------------------------------------------------------------------------------------------
+// native schedule control: suspend one real thread just before its n-th shared-memory operation so
+// that other REAL threads can run REAL operations in the gap (deterministic replay of an interleaving
+// on the real code; used by native/src/bin/findings.rs)
+
+#[cfg(not(kani))]
+pub mod sched {
+    use std::cell::Cell;
+    use std::sync::atomic::{AtomicBool, AtomicUsize, Ordering};
+
+    thread_local! {
+        /// 0 = not under schedule control; otherwise this thread's tag
+        pub static TAG: Cell<usize> = Cell::new(0);
+        static COUNT: Cell<usize> = Cell::new(0);
+    }
+    pub static PAUSE_TAG: AtomicUsize = AtomicUsize::new(0);
+    pub static PAUSE_AT: AtomicUsize = AtomicUsize::new(0);
+    pub static PAUSED: AtomicBool = AtomicBool::new(false);
+    pub static RESUME: AtomicBool = AtomicBool::new(false);
+    pub static PAUSED_KIND: AtomicUsize = AtomicUsize::new(99);
+
+    /// tag the calling thread and reset its operation counter
+    pub fn enter(tag: usize) {
+        TAG.with(|t| t.set(tag));
+        COUNT.with(|c| c.set(0));
+    }
+    /// arrange for the thread tagged `tag` to stop just before its `nth` shared-memory operation (1-based)
+    pub fn pause_thread_at(tag: usize, nth: usize) {
+        PAUSED.store(false, Ordering::SeqCst);
+        RESUME.store(false, Ordering::SeqCst);
+        PAUSE_AT.store(nth, Ordering::SeqCst);
+        PAUSE_TAG.store(tag, Ordering::SeqCst);
+    }
+    pub fn wait_until_paused() {
+        while !PAUSED.load(Ordering::SeqCst) {
+            std::thread::yield_now();
+        }
+    }
+    pub fn resume() {
+        PAUSE_TAG.store(0, Ordering::SeqCst);
+        RESUME.store(true, Ordering::SeqCst);
+    }
+    #[inline(always)]
+    pub fn point(kind: u8, _addr: usize) {
+        let tag = TAG.with(|t| t.get());
+        if tag == 0 || tag != PAUSE_TAG.load(Ordering::SeqCst) {
+            return;
+        }
+        let n = COUNT.with(|c| {
+            c.set(c.get() + 1);
+            c.get()
+        });
+        if n == PAUSE_AT.load(Ordering::SeqCst) {
+            PAUSED_KIND.store(kind as usize, Ordering::SeqCst);
+            PAUSED.store(true, Ordering::SeqCst);
+            while !RESUME.load(Ordering::SeqCst) {
+                std::thread::yield_now();
+            }
         }
     }
 }
